@@ -1,0 +1,38 @@
+//! Verification hook (only with `--cfg purr_verif`): counts the live and the
+//! maximum number of `read_smiles` activations on the current thread.
+use std::cell::Cell;
+
+thread_local! {
+    static LIVE: Cell<usize> = Cell::new(0);
+    static MAX: Cell<usize> = Cell::new(0);
+}
+
+pub struct Guard;
+
+impl Guard {
+    pub fn enter() -> Guard {
+        LIVE.with(|live| {
+            live.set(live.get() + 1);
+            MAX.with(|max| if live.get() > max.get() { max.set(live.get()) });
+        });
+
+        Guard
+    }
+}
+
+impl Drop for Guard {
+    fn drop(&mut self) {
+        LIVE.with(|live| live.set(live.get() - 1))
+    }
+}
+
+/// Maximum number of simultaneously live `read_smiles` activations since the
+/// last `reset_depth`.
+pub fn max_depth() -> usize {
+    MAX.with(|max| max.get())
+}
+
+pub fn reset_depth() {
+    LIVE.with(|live| live.set(0));
+    MAX.with(|max| max.set(0));
+}
